@@ -37,6 +37,27 @@ type simStruct struct {
 	C interface{}
 }
 type simRegSafeInt int
+
+// named non-struct types with methods; the identity travels in the value
+type simList []int         // simList{ID}; the nil list uses identity -2
+type simMap map[string]int // simMap{"id": ID}
+type simInt int            // simInt(ID)
+type simFmtStr string      // simFmtStr("<ID>")
+
+func (l simList) id() int {
+	if len(l) == 0 {
+		return -2
+	}
+	return l[0]
+}
+func (l simList) String() string { return curEnv().strMethod(l.id(), "String") }
+func (m simMap) Error() string   { return curEnv().strMethod(m["id"], "Error") }
+func (i simInt) String() string  { return curEnv().strMethod(int(i), "String") }
+func (s simFmtStr) Format(f fmt.State, verb rune) {
+	id, _ := strconv.Atoi(string(s))
+	curEnv().fmtMethod(id, "Format", f, verb)
+}
+
 type simPlainErr struct {
 	ID  int
 	Msg string
@@ -110,7 +131,8 @@ func errorHook(err error, p redact.SafePrinter, verb rune) {
 var scriptedKinds = map[string]bool{
 	"stringer": true, "error": true, "wraperr": true, "formatter": true, "gostringer": true,
 	"safefmt": true, "safemsg": true, "errfmt": true, "errsafefmt": true, "errstr": true,
-	"safeval": true, "regsafe": true, "hookerr": true, "nilstringer": true, "nilerror": true,
+	"safeval": true, "regsafe": true, "hookerr": true,
+	"liststringer": true, "nilliststringer": true, "maperror": true, "intstringer": true, "strformatter": true, "nilstringer": true, "nilerror": true,
 }
 
 // build turns a descriptor into a live operand.
@@ -250,6 +272,17 @@ func (e *env) build(v *Val) interface{} {
 		return simSafeVal{v.ID}
 	case "hookerr":
 		return simHookErr{v.ID}
+	case "liststringer":
+		return simList{v.ID}
+	case "nilliststringer":
+		e.defs[-2] = v
+		return simList(nil)
+	case "maperror":
+		return simMap{"id": v.ID}
+	case "intstringer":
+		return simInt(v.ID)
+	case "strformatter":
+		return simFmtStr(strconv.Itoa(v.ID))
 	case "regsafe":
 		return simRegSafe{v.ID}
 	case "nilstringer":
